@@ -313,7 +313,10 @@ def run_builtins(ctx, classes, stats):
     rng.shuffle(jobs)
     nw = C.NCPU
     queue = WorkQueue(jobs, batch=24)
+    t_sweep = time.time()
     results = C.pool_map(lambda w: builtin_worker(ctx, w, queue), list(range(nw)), workers=nw)
+    stats["sweep_wall_s"] = round(time.time() - t_sweep, 1)
+    stats["sweep_worker_s"] = [r.get("wall") for r in results]
     tuples = oks = errs = 0
     raw = []
     stats["sweeps_truncated"] = sum(r["truncated"] for r in results)
@@ -348,9 +351,10 @@ def builtin_worker(ctx, wid, queue):
     out = os.path.join(SCRATCH, "b%d.out" % wid)
     sandbox = os.path.join(SCRATCH, "sandbox", "b%d" % wid)
     todo = []
-    res = {"tuples": 0, "ok": 0, "err": 0, "events": [], "truncated": 0}
+    res = {"tuples": 0, "ok": 0, "err": 0, "events": [], "truncated": 0, "spawns": 0}
     hangs_per_fn = {}
     guard = 0
+    t_w = time.time()
     while guard < 100000:
         guard += 1
         if not todo:
@@ -361,6 +365,8 @@ def builtin_worker(ctx, wid, queue):
         env = {"C07_SOFT_MS": "3000", "C07_HARD_MS": "2500" if ctx.quick() else "8000",
                "C07_MAX_PANICS": "12" if ctx.quick() else "200", "C07_MAX_SAME": "4" if ctx.quick() else "40"}
         rc, tail = spawn("builtins", lines, out, sandbox, env=env, timeout=3600)
+        res["spawns"] += 1
+        res["wall"] = "%.0fs/%d" % (time.time() - t_w, res["spawns"])
         recs = read_records(out)
         done = 0
         cur = None
